@@ -297,7 +297,7 @@ def main(tier):
     for pr in rs_pairs:
         for ah in (True, False):
             for op in RS_OPS:
-                if tier == "quick" and pr != PAIRS[0] and (op not in ("read_kil", "write_koh", "scan_tick") or not ah):
+                if tier == "quick" and pr != PAIRS[0] and (op not in ("read_kil", "write_koh", "scan_tick") or (op == "scan_tick" and not ah)):
                     continue
                 rs_cases.append((op, pr, ah))
     # heavy cases first
